@@ -115,7 +115,43 @@ pub fn check_one<L: Tab>(t: &TT, u: &TT, op: &str, i: usize, j: usize) -> Result
     }
 }
 
+/// One tour per first size: a batch of every operation per size, every ordered pair of sizes.
+pub fn tour(which: &str, k: usize, thorough: bool) -> Result<super::xsize::Tour, String> {
+    if which != "sizes" {
+        return Err("no such tour".into());
+    }
+    let sizes: Vec<usize> = (1..=if thorough { 12 } else { 10 }).collect();
+    let a0 = *sizes.get(k).ok_or("no such tour")?;
+    let mut t = super::xsize::Tour::new(format!("sizes:{}", k));
+    for s in super::xsize::size_pairs_from(a0, &sizes) {
+        let pats = alpha::word_patterns(s, 0, 0);
+        let f = pats[pats.len() - 1].clone();
+        let g = TT::from_fn(s, |m| alpha::popcount(m) % 3 == 1 || m == 0);
+        let idx: Vec<(usize, usize)> = vec![(0, s - 1), (s - 1, 0), (s / 2, (s / 2 + 1) % s), (s.saturating_sub(2), s - 1)];
+        for (i, j) in idx {
+            for op in OPS {
+                if (op.starts_with("swap_adjacent") && i + 1 >= s) || (op.starts_with("swap") && !op.starts_with("swap_adjacent") && i == j) {
+                    continue;
+                }
+                for st in [false, true] {
+                    let (f2, g2) = (f.clone(), g.clone());
+                    t.push(format!("{} {}({},{}) n={}", if st { "LutN" } else { "Lut" }, op, i, j, s), move || {
+                        fn go<L: Tab>(t: &TT, u: &TT, op: &str, i: usize, j: usize) -> Verdict {
+                            check_one::<L>(t, u, op, i, j).map(|_| ())
+                        }
+                        for_type!(st, f2.n, go(&f2, &g2, op, i, j))
+                    });
+                }
+            }
+        }
+    }
+    Ok(t)
+}
+
 pub fn replay(case: &Case) -> Result<Verdict, String> {
+    if case.opt("kind") == Some("tour") {
+        return super::xsize::replay(case, &tour);
+    }
     let st = parse_ty(case.get("ty")?)?;
     let n = case.usize("n")?;
     let t = TT::from_words(n, &case.words("t")?).ok_or("t malformed")?;
@@ -439,4 +475,6 @@ pub fn run(run: &Run) {
             for_static!(n, al(run, true, n));
         }
     }
+    let th = run.thorough();
+    super::xsize::run_tours(run, "C03", "sizes (every transform and cofactor operation per size, every ordered pair of sizes consecutively)", "sizes 1..=10 (thorough 12); two tables x 4 index pairs x 9 operations x both types per visit; results must not depend on what was transformed before on the thread", if th { 12 } else { 10 }, &|k| tour("sizes", k, th).unwrap());
 }
